@@ -58,6 +58,26 @@ fn run_case(rec: &mut Rec, desc: &Value) {
     with_color_type!(ct.as_str(), run_ct(rec, desc));
 }
 
+/// the drawable on targets whose box is exactly its (unstyled / styled) bounding box
+fn own_box_case<C>(rec: &mut Rec, d: &Value, ct: &str, both: bool)
+where
+    C: ImgCol,
+    for<'a> ImageRaw<'a, C>: ImageDrawable<Color = C>,
+{
+    let styled = catch(|| bbox_desc::<C>(d));
+    if let Ok(b) = styled {
+        if !b.is_zero_sized() && b.size.width <= 64 && b.size.height <= 64 {
+            run_case(rec, &json!({"d": d, "ct": ct, "box": rect_json(&b)}));
+        }
+    }
+    if both && d["kind"] == "prim" {
+        let b: embedded_graphics::primitives::Rectangle = egv::shapes::Shape::from_desc(&d["shape"]).bounding_box();
+        if !b.is_zero_sized() && b.size.width <= 64 && b.size.height <= 64 {
+            run_case(rec, &json!({"d": d, "ct": ct, "box": rect_json(&b)}));
+        }
+    }
+}
+
 fn boxes(tl: (i32, i32)) -> Vec<Value> {
     let (x, y) = tl;
     vec![
@@ -107,6 +127,12 @@ fn main() {
             };
             for b in pick {
                 run_case(&mut rec, &json!({"d": d, "ct": ct, "box": bxs[b]}));
+            }
+            // a target whose bounding box IS the drawable's own bounding box ("fill the whole display"): every fourth
+            // drawable, and every rectangle / rounded rectangle
+            let own = d["kind"] == "prim" && (d["shape"]["k"] == "rect" || d["shape"]["k"] == "rrect");
+            if own || n % 4 == 0 {
+                with_color_type!(ct, own_box_case(&mut rec, &d, ct, own));
             }
         }
     }
